@@ -119,8 +119,10 @@ def run(ctx):
             dec = rec["dec"]
             if m_dec[0] == "ok":
                 mv, mrest, mre = m_dec[1], m_dec[2], model_result(m_dec[3])
+                # re-encoding the decoded value gives the original bytes back only inside the theorem's domain: a set / mapping holding
+                # both a node and the plain UUID naming it is written with a repeated element, which the decoder collapses
                 good = dec[0] == "ok" and canon(mv) == canon(to_sx(dec[1], env)) and mrest == 0 \
-                    and mre[0] == "ok" and bytes(mre[1]) == enc[1]
+                    and mre[0] == "ok" and (bytes(mre[1]) == enc[1] or m_wt != 1)
             else:
                 good = dec[0] == "err" and dec[1] == m_dec[1]
             if not good:
